@@ -1,0 +1,95 @@
+//go:build verif
+
+// Contracts for package style, read by /verif/engine (govc). This file holds
+// comments only: with or without the build tag it adds no code to the package.
+package style
+
+// styleOf: the registered style of an id (nil when absent).
+//@ spec styleOf(sm *StyleManager, id string) *Style = ite(sm.styles != nil && has(sm.styles, id), sm.styles[id], nil)
+
+// resolveP_F / resolveR_F: the paragraph-level / character-level element F that style `id` resolves to:
+// its own setting if it has one, otherwise that of the nearest ancestor along the basedOn chain
+// (fuel bounds the walk so that the function is total on cyclic graphs).
+//@ spec-fields F of ParagraphProperties ptr :: resolveP_$F(sm *StyleManager, id string, fuel int) *$T = ite(styleOf(sm, id) == nil, nil, ite(styleOf(sm, id).ParagraphPr != nil && styleOf(sm, id).ParagraphPr.$F != nil, styleOf(sm, id).ParagraphPr.$F, ite(styleOf(sm, id).BasedOn == nil || fuel <= 0, nil, resolveP_$F(sm, styleOf(sm, id).BasedOn.Val, fuel - 1))))
+//@ spec-fields F of RunProperties ptr :: resolveR_$F(sm *StyleManager, id string, fuel int) *$T = ite(styleOf(sm, id) == nil, nil, ite(styleOf(sm, id).RunPr != nil && styleOf(sm, id).RunPr.$F != nil, styleOf(sm, id).RunPr.$F, ite(styleOf(sm, id).BasedOn == nil || fuel <= 0, nil, resolveR_$F(sm, styleOf(sm, id).BasedOn.Val, fuel - 1))))
+
+//@ func mergeParagraphProperties
+//@ props C14
+//@ modifies nothing
+//@ ensures base == nil ==> result == override
+//@ ensures base != nil && override == nil ==> result == base
+//@ ensures base != nil && override != nil ==> fresh(result)
+//@ ensures forall-fields F of ParagraphProperties ptr :: base != nil && override != nil ==> result.$F == ite(override.$F != nil, override.$F, base.$F)
+
+//@ func mergeRunProperties
+//@ props C14
+//@ modifies nothing
+//@ ensures base == nil ==> result == override
+//@ ensures base != nil && override == nil ==> result == base
+//@ ensures base != nil && override != nil ==> fresh(result)
+//@ ensures forall-fields F of RunProperties ptr :: base != nil && override != nil ==> result.$F == ite(override.$F != nil, override.$F, base.$F)
+
+// The resolution is stated over the registry as it was at entry (old(...)); together with
+// "modifies nothing" (no registered style is written) that is the registry the caller still sees.
+//@ func (*StyleManager).resolveStyle
+//@ props C14
+//@ requires sm != nil && depth >= 0
+//@ decreases len(sm.styles) - depth
+//@ modifies nothing
+//@ ensures (result == nil) <==> (styleOf(sm, styleID) == nil)
+//@ ensures result != nil ==> result.StyleID == styleOf(sm, styleID).StyleID && result.Type == styleOf(sm, styleID).Type && result.Name == styleOf(sm, styleID).Name && result.BasedOn == styleOf(sm, styleID).BasedOn
+//@ ensures forall-fields F of ParagraphProperties ptr :: result != nil ==> ite(result.ParagraphPr == nil, nil, result.ParagraphPr.$F) == old(resolveP_$F(sm, styleID, len(sm.styles) - depth))
+//@ ensures forall-fields F of RunProperties ptr :: result != nil ==> ite(result.RunPr == nil, nil, result.RunPr.$F) == old(resolveR_$F(sm, styleID, len(sm.styles) - depth))
+
+//@ func (*StyleManager).GetStyleWithInheritance
+//@ props C14
+//@ requires sm != nil
+//@ modifies nothing
+//@ ensures (result == nil) <==> (styleOf(sm, styleID) == nil)
+//@ ensures forall-fields F of ParagraphProperties ptr :: result != nil ==> ite(result.ParagraphPr == nil, nil, result.ParagraphPr.$F) == old(resolveP_$F(sm, styleID, len(sm.styles)))
+//@ ensures forall-fields F of RunProperties ptr :: result != nil ==> ite(result.RunPr == nil, nil, result.RunPr.$F) == old(resolveR_$F(sm, styleID, len(sm.styles)))
+
+//@ func (*StyleManager).cloneParagraphProperties
+//@ props C14
+//@ modifies nothing
+//@ ensures deepcopy(result, source)
+
+//@ func (*StyleManager).cloneRunProperties
+//@ props C14
+//@ modifies nothing
+//@ ensures deepcopy(result, source)
+
+//@ func (*StyleManager).cloneTableProperties
+//@ props C14
+//@ modifies nothing
+//@ ensures deepcopy(result, source)
+
+//@ func (*StyleManager).cloneTableRowProperties
+//@ props C14
+//@ modifies nothing
+//@ ensures deepcopy(result, source)
+
+//@ func (*StyleManager).cloneTableCellProperties
+//@ props C14
+//@ modifies nothing
+//@ ensures deepcopy(result, source)
+
+//@ func (*StyleManager).cloneStyle
+//@ props C14
+//@ modifies nothing
+//@ ensures deepcopy(result, source)
+
+// Clone: the result registers exactly the ids of the source, each bound to a deep copy; nothing that
+// existed before the call is written (so the source registry is untouched) and nothing is shared.
+//@ func (*StyleManager).Clone
+//@ props C14
+//@ requires sm != nil
+//@ modifies nothing
+//@ ensures fresh(result) && result.styles != nil && fresh(result.styles)
+//@ ensures forall k string :: has(result.styles, k) <==> has(sm.styles, k)
+//@ ensures forall k string :: has(sm.styles, k) ==> deepcopy(result.styles[k], sm.styles[k])
+//@ loop 1
+//@   invariant clonedSM != nil && fresh(clonedSM) && clonedSM.styles != nil && fresh(clonedSM.styles) && unchangedHeap()
+//@   invariant forall k string :: has(clonedSM.styles, k) <==> seen(k)
+//@   invariant forall k string :: seen(k) ==> has(sm.styles, k)
+//@   invariant forall k string :: seen(k) ==> deepcopy(clonedSM.styles[k], sm.styles[k])
